@@ -191,17 +191,21 @@ pub fn main(args: &[String], w: &mut dyn Write) {
             let (count, seed): (u64, u64) = (args[1].parse().unwrap(), args[2].parse().unwrap());
             let (shard, nsh): (u64, u64) = (args[3].parse().unwrap(), args[4].parse().unwrap());
             let mk = ExpectationMaker::new(RuleRegistry::default());
-            let pool = ["a", "b", "ab", "a (+)", "b (*)", "- (*)", "a (?)", "? (glob)", "* (glob+)", "a* (glob*)", "[ab]+ (regex+)", "a|b (regex)", "a (no-eol)", "- (no-eol)", "b (equal?)", "- (+)", "ab (*)", "?? (glob?)"];
+            // the last six: twins that print alike (a raw TAB and the two characters backslash-t are both shown as \t) but match different lines
+            let pool = ["a", "b", "ab", "a (+)", "b (*)", "- (*)", "a (?)", "? (glob)", "* (glob+)", "a* (glob*)", "[ab]+ (regex+)", "a|b (regex)", "a (no-eol)", "- (no-eol)", "b (equal?)", "- (+)", "ab (*)", "?? (glob?)",
+                        "a\tb", "a\\tb", "a\tb (?)", "a\\tb (?)", "a\tb (*)", "a\\tb (+)"];
             let parsed: Vec<Expectation> = pool.iter().map(|p| mk.parse(p).unwrap()).collect();
-            let texts: [&[u8]; 5] = [b"a", b"b", b"ab", b"-", b"a"];
+            let texts: [&[u8]; 7] = [b"a", b"b", b"ab", b"-", b"a", b"a\tb", b"a\\tb"];
             let mut r = Rng::new(seed.wrapping_add(shard * 104729));
             for _ in 0..(count / nsh) {
-                let ne = r.range(0, 5); let nl = r.range(0, 7);
-                let exps: Vec<Expectation> = (0..ne).map(|_| r.pick(&parsed).clone()).collect();
+                let (mut ne, mut nl) = (r.range(0, 5), r.range(0, 7));
+                let twins = r.chance(1, 5);   // only the look-alike twins and their two texts
+                if twins { ne = r.range(2, 4); nl = r.range(2, 4); }
+                let exps: Vec<Expectation> = (0..ne).map(|_| if twins { parsed[18 + r.below(6) as usize].clone() } else { r.pick(&parsed).clone() }).collect();
                 let nlflag = r.chance(1, 2);
                 let mut lines: Vec<Vec<u8>> = vec![];
                 for j in 0..nl {
-                    let mut l = if j > 0 && r.chance(1, 2) { let mut p = lines[j - 1].clone(); if p.last() == Some(&b'\n') { p.pop(); } p } else { r.pick(&texts).to_vec() };
+                    let mut l = if j > 0 && r.chance(1, 2) { let mut p = lines[j - 1].clone(); if p.last() == Some(&b'\n') { p.pop(); } p } else if twins { texts[5 + r.below(2) as usize].to_vec() } else { r.pick(&texts).to_vec() };
                     if j + 1 < nl || nlflag { l.push(b'\n'); }
                     lines.push(l);
                 }
